@@ -479,7 +479,31 @@ def aux_pairing(ctx):
     # Suspender.action uses aux.done as its "not running" flag: every deactivation must leave done True (exitAll sets it only
     # when it is not an abort)
     calls = [c for n, c in Dd.calls("aux.exitAll")]
-    plain = all(not c.args and all(k.arg == "abort" and isinstance(k.value, ast.Constant) and not k.value.value for k in c.keywords) for c in calls)
+    def falsy_here(v):
+        # a literal falsy value, or a parameter of deactivate whose default is falsy and that no caller in the package ever supplies
+        if isinstance(v, ast.Constant):
+            return not v.value
+        if isinstance(v, ast.Name):
+            a = dd.args
+            names = [x.arg for x in a.args]
+            if v.id in names:
+                i = names.index(v.id) - (len(names) - len(a.defaults))
+                dflt = a.defaults[i] if i >= 0 else None
+                if not (isinstance(dflt, ast.Constant) and not dflt.value):
+                    return False
+                if any(isinstance(x, ast.Name) and x.id == v.id and isinstance(x.ctx, ast.Store) for x in ast.walk(dd)):
+                    return False
+                pos = names.index(v.id) - 1       # position among the call's arguments (self bound)
+                for m in ctx.repo.modules.values():
+                    if m.is_test:
+                        continue
+                    for x in ast.walk(m.tree):
+                        if isinstance(x, ast.Call) and isinstance(x.func, ast.Attribute) and x.func.attr == dd.name and \
+                                (len(x.args) > pos or any(k.arg in (v.id, None) for k in x.keywords) or any(isinstance(z, ast.Starred) for z in x.args)):
+                            return False
+                return True
+        return False
+    plain = all(not c.args and all(k.arg == "abort" and falsy_here(k.value) for k in c.keywords) for c in calls)
     ea_ = ctx.fn("framing", "Framer.exitAll")
     Ea = FuncView(ctx, ea_)
     dset = [n for n in Ea.stores("done") if isinstance(n.ast, ast.Assign) and isinstance(n.ast.value, ast.Constant) and n.ast.value.value is True]
